@@ -119,11 +119,12 @@ func (g *gen) seekTarget(es []sstEntry) []byte {
 }
 
 func genSst(g *gen, n int, tier string, w *bufio.Writer) {
+	c0 := g.intn(1 << 20) // phase of the case kinds: generation is chunked, every chunk must reach every kind
 	fmt.Fprintln(w, "# case params")
 	fmt.Fprintln(w, "bloomparams")
 	for c := 0; c < n; c++ {
 		fmt.Fprintf(w, "# case %d\n", c)
-		if c%3 != 2 { // block-level case
+		if (c+c0)%3 != 2 { // block-level case
 			cnt := g.pick(1, 2, 3, 15, 16, 17, 18, 31, 32, 33, 40, 64, 100)
 			if g.chance(1, 3) {
 				cnt = 1 + g.intn(70)
@@ -150,7 +151,7 @@ func genSst(g *gen, n int, tier string, w *bufio.Writer) {
 		// table-level case: mostly small, some multi-block
 		cnt := 1 + g.intn(60)
 		valMax := 300
-		if c%15 == 2 {
+		if (c+c0)%15 == 2 {
 			cnt = 80 + g.intn(300)
 			valMax = g.pick(1200, 3000, 9000)
 		}
@@ -161,7 +162,7 @@ func genSst(g *gen, n int, tier string, w *bufio.Writer) {
 		}
 		fmt.Fprintf(w, "tbuild bloom=%d %d %s\n", bloom, cnt, fmtSstEntries(es))
 		fmt.Fprintln(w, "tall")
-		if c%9 == 5 && cnt <= 30 { // single-byte alterations of a small table file
+		if (c+c0)%9 == 5 && cnt <= 30 { // single-byte alterations of a small table file
 			for a := 0; a < 40; a++ {
 				fmt.Fprintf(w, "talter %d %d\n", g.intn(12000), g.pick(1, 0x80, 0xff, 0x10))
 				fmt.Fprintln(w, "tall")
